@@ -45,8 +45,12 @@ const (
 
 // kinds of handler behaviour
 const (
-	kindHealthy = "h"  // marker, sleep, predone, Done(), done record, idle
-	kindGated   = "g"  // healthy, but waits at a gate (file gate.open) between the marker and everything else
+	kindHealthy = "h" // marker, sleep, predone, Done(), done record, idle
+	kindGated   = "g" // healthy, but waits at a gate (file gate.open) between the marker and everything else
+	// short-lived daemons: marker, predone, Done(), done record - and the process ends with status 0
+	kindShort0  = "s0" // ... at once
+	kindShort5  = "s5" // ... 3 ms later
+	kindShortFz = "sf" // like s0, but the launcher is frozen (SIGSTOP) from before Done() until the daemon is gone: both of the launcher's events, the signal and the daemon's exit, are pending when it resumes
 	kindExit3   = "x3" // marker, then os.Exit(3) before Done()
 	kindExit0   = "x0" // marker, then os.Exit(0) before Done()
 	kindPanic   = "p"  // marker, then panic before Done()
@@ -60,7 +64,19 @@ func kindOf(kinds []string, i int) string {
 }
 
 // healthyKind: the handler reaches Done(), i.e. the statement covers its Launch call.
-func healthyKind(k string) bool { return k == kindHealthy || k == kindGated }
+func healthyKind(k string) bool { return k == kindHealthy || k == kindGated || shortKind(k) }
+
+// shortKind: the daemon is finished right after Done() by design; liveness clauses do not apply.
+func shortKind(k string) bool { return k == kindShort0 || k == kindShort5 || k == kindShortFz }
+
+func anyShortKind(kinds []string) bool {
+	for _, k := range kinds {
+		if shortKind(k) {
+			return true
+		}
+	}
+	return false
+}
 
 func extraCap() time.Duration {
 	n, _ := strconv.Atoi(os.Getenv(envCap))
@@ -224,6 +240,18 @@ func daemonMain(idx int) {
 	}
 	rec := DoneRec{Pid: pid, Idx: idx, Seq: seq}
 	rec.PreErr = preDoneAction(pre)
+	myKind := kindOf(kinds, idx)
+	if shortKind(myKind) {
+		forced = false // no settle probe, no flag: this process is about to end; the supervisor releases a paused launcher
+	}
+	if myKind == kindShortFz && os.Getppid() == lpid {
+		// freeze the launcher (a slow, descheduled launcher) and see it stopped before Done()
+		if err := syscall.Kill(lpid, syscall.SIGSTOP); err != nil {
+			rec.PreErr = "SIGSTOP launcher: " + err.Error()
+		} else if !waitFor(10*time.Second, func() bool { st, same := sameProcess(lpid, lst.Start); return !same || st.State == "T" }) {
+			rec.PreErr = "launcher did not stop"
+		}
+	}
 	calling := os.Getppid() == lpid
 	writeAtomic(dir, fmt.Sprintf("predone.%d", pid), PreDone{Pid: pid, Idx: idx, Seq: seq, Calling: calling})
 	if !calling {
@@ -251,6 +279,13 @@ func daemonMain(idx int) {
 		}
 	}
 	writeAtomic(dir, fmt.Sprintf("done.%d", pid), rec)
+	switch myKind {
+	case kindShort0, kindShortFz:
+		return // the handler returns: daemon.Run() returns true, main() ends the process with status 0
+	case kindShort5:
+		time.Sleep(3 * time.Millisecond)
+		return
+	}
 	if forced && len(listPrefixed(dir, "done.")) >= len(delays) {
 		// every daemon of this caller has returned from Done(): release the paused launchers
 		if f, err := os.OpenFile(filepath.Join(dir, flagName), os.O_CREATE|os.O_WRONLY, 0o644); err == nil {
